@@ -295,6 +295,17 @@ def dt1(proj, rep, modules):
                 if fname.split('.')[-1] not in ('zeros', 'empty', 'ones', 'full'):
                     continue
                 dk = next((k.value for k in st.value.keywords if k.arg == 'dtype'), None)
+                if isinstance(dk, ast.Name):
+                    # dtype chosen through a local name: `tmp2 = theta.dtype if is_real else ...`
+                    defs = [s2.value for s2 in ast.walk(fi.node) if isinstance(s2, ast.Assign) and len(s2.targets) == 1 and isinstance(s2.targets[0], ast.Name)
+                            and s2.targets[0].id == dk.id and s2.lineno < st.lineno]
+                    # the definition in the same block (same backend arm) as the allocation
+                    blk_of = lambda node: next((b for x in ast.walk(fi.node) for f_ in ('body', 'orelse') for b in [getattr(x, f_, None)] if isinstance(b, list) and node in b), None)
+                    same = [s2 for s2 in ast.walk(fi.node) if isinstance(s2, ast.Assign) and len(s2.targets) == 1 and isinstance(s2.targets[0], ast.Name)
+                            and s2.targets[0].id == dk.id and s2.lineno < st.lineno and blk_of(s2) is blk_of(st)]
+                    cand = same[-1].value if same else (defs[-1] if len(defs) == 1 else None)
+                    arm = cand.body if isinstance(cand, ast.IfExp) else cand
+                    dk = arm if isinstance(arm, ast.Attribute) else dk
                 if not (isinstance(dk, ast.Attribute) and dk.attr == 'dtype' and isinstance(dk.value, ast.Name) and dk.value.id in params):
                     continue
                 p = dk.value.id
@@ -310,6 +321,13 @@ def dt1(proj, rep, modules):
                             floated = True
                     if isinstance(s2, ast.AugAssign) and isinstance(s2.target, ast.Name) and s2.target.id == p and isinstance(s2.op, ast.Div) and s2.lineno < st.lineno:
                         floated = True
+                # an assert / raise guard that admits floating dtypes only
+                for s2 in ast.walk(fi.node):
+                    if isinstance(s2, ast.Assert) and s2.lineno < st.lineno and f'{p}.dtype' in ast.unparse(s2.test) and ('float' in ast.unparse(s2.test) or 'is_floating_point' in ast.unparse(s2.test)):
+                        blk2 = next((b for x in ast.walk(fi.node) for f_ in ('body', 'orelse') for b in [getattr(x, f_, None)] if isinstance(b, list) and s2 in b), None)
+                        # the guard protects the allocation only when it is on its path: same block, or the function body itself
+                        if blk2 is fi.node.body or (blk2 is not None and any(x is st for b in blk2 for x in ast.walk(b))):
+                            floated = True
                 # stores of a divided value into the buffer
                 bad = None
                 for s2 in ast.walk(fi.node):
